@@ -13,6 +13,10 @@ Definition spec_written (cf : cfg) : list val := flat_map (script_writes cf) (it
 Definition rwrites (a : list ract) : list nat :=
   flat_map (fun x => match x with RWrite k => [k] | RPanic _ => [] end) a.
 
+(* values are codes; `vnil` is Go's untyped nil, a perfectly good value: a reducer that writes nil once makes the
+   call return (nil, nil), not ErrReduceNoOutput (`v, ok := <-output`: ok tells written from closed) *)
+Definition vnil : nat := 0.
+
 (* result table without cancel / panic / ctx: the single value, ErrReduceNoOutput, or the caller panics *)
 Definition spec_result (a : list ract) : outcome :=
   match rwrites a with [] => ONoOutput | [k] => ORet k | _ :: _ :: _ => OPanicTwice end.
